@@ -2,6 +2,7 @@ package bal
 
 import (
 	"fmt"
+	"math/rand"
 	"runtime/debug"
 	"sort"
 	"strings"
@@ -54,11 +55,25 @@ func (o *Outcome) key(sorted bool) string {
 // map (user data serialised by the REAL AssignmentData, as consumerGroup.syncGroupRequest does; the
 // legacy V0 form through sarama's own encoder) and the topics map built from the subscriptions exactly
 // as consumerGroup.balance does.
-func realInput(in *Input) (map[string]sarama.ConsumerGroupMemberMetadata, map[string][]int32, error) {
+//
+// order > 0 selects the pseudo-random order in which the members are inserted into the map and in which
+// each subscription list is written (0: sorted): Go iterates small maps in insertion order from a
+// random start, and the real insertion order is the broker's member order, which means nothing.
+func realInput(in *Input, order int) (map[string]sarama.ConsumerGroupMemberMetadata, map[string][]int32, error) {
 	st := strategy(in.Strat)
 	members := make(map[string]sarama.ConsumerGroupMemberMetadata, len(in.Members))
-	for _, m := range in.Members {
+	ms := in.Members
+	var rng *rand.Rand
+	if order > 0 {
+		rng = rand.New(rand.NewSource(int64(order) * 7919))
+		ms = append([]InMember(nil), ms...)
+		rng.Shuffle(len(ms), func(a, b int) { ms[a], ms[b] = ms[b], ms[a] })
+	}
+	for _, m := range ms {
 		meta := sarama.ConsumerGroupMemberMetadata{Version: 1, Topics: append([]string(nil), m.Subs...)}
+		if rng != nil {
+			rng.Shuffle(len(meta.Topics), func(a, b int) { meta.Topics[a], meta.Topics[b] = meta.Topics[b], meta.Topics[a] })
+		}
 		if m.Data != nil {
 			var err error
 			if m.Data.V0 {
@@ -97,8 +112,8 @@ func realInput(in *Input) (map[string]sarama.ConsumerGroupMemberMetadata, map[st
 var beforePlan = func() {}
 
 // RunPlan performs ONE real Plan call on the input.
-func RunPlan(in *Input) (out Outcome, engineErr error) {
-	members, topics, err := realInput(in)
+func RunPlan(in *Input, order int) (out Outcome, engineErr error) {
+	members, topics, err := realInput(in, order)
 	if err != nil {
 		return Outcome{}, err
 	}
